@@ -1,26 +1,28 @@
 #!/bin/bash
 # tools/mutant_matrix.sh <dir with patch.diff>...: run EVERY check against each seeded change, in a
-# scratch clone of /verif (/tmp/vmat) against a scratch worktree of /repo (/tmp/mut/matrix); /repo and
+# scratch clone of /verif (VMAT_DIR, default /tmp/vmat) against a scratch worktree of /repo (VMAT_REPO, default /tmp/mut/matrix); /repo and
 # /verif themselves are not touched.  One line per check that reports; "### done" at the end.
 set -u
-[ -d /tmp/mut/matrix ] || git -C /repo worktree add --detach /tmp/mut/matrix HEAD >/dev/null 2>&1
-git -C /tmp/mut/matrix checkout -q --detach "$(git -C /repo rev-parse HEAD)"
-mkdir -p /tmp/vmat
-rsync -a --exclude .git --exclude replays --exclude evidence --exclude 'lean/.lake/build' /verif/ /tmp/vmat/
-[ -d /tmp/vmat/lean/.lake/build ] || cp -r /verif/lean/.lake/build /tmp/vmat/lean/.lake/build
-cd /tmp/vmat
-export SPARROW_REPO=/tmp/mut/matrix
+VM=${VMAT_DIR:-/tmp/vmat}
+WT=${VMAT_REPO:-/tmp/mut/matrix}
+[ -d $WT ] || git -C /repo worktree add --detach $WT HEAD >/dev/null 2>&1
+git -C $WT checkout -q --detach "$(git -C /repo rev-parse HEAD)"
+mkdir -p $VM
+rsync -a --exclude .git --exclude replays --exclude evidence --exclude 'lean/.lake/build' /verif/ $VM/
+[ -d $VM/lean/.lake/build ] || cp -r /verif/lean/.lake/build $VM/lean/.lake/build
+cd $VM
+export SPARROW_REPO=$WT
 ( cd lean && lake build Sparrow sparrow-driver Sparrow.Props.All >/dev/null 2>&1 )
 CHECKS=$(python3 -c "import json; print(' '.join(x['property_id'] for x in json.load(open('MANIFEST.json'))['checks']))")
 one() { c=$1; out=$(VERIF_SEED=${VERIF_SEED:-0} ./check $c 2>&1); rc=$?; echo "$c rc=$rc $(echo "$out" | grep -E "VIOLATION" | head -1 | cut -c1-160)"; if [ $rc -ge 2 ]; then echo "$out" | tail -6 | sed "s/^/    /"; fi; }
 export -f one
 for d in "$@"; do
-  git -C /tmp/mut/matrix checkout -q -- . ; git -C /tmp/mut/matrix apply "$d/patch.diff" || { echo "$d: patch failed"; continue; }
+  git -C $WT checkout -q -- . ; git -C $WT apply "$d/patch.diff" || { echo "$d: patch failed"; continue; }
   echo "### $(basename $d)"
   /venv/bin/python -c "from harness import leanproof; leanproof.translate()" >/dev/null 2>&1
   ( cd lean && lake build Sparrow.Props.All sparrow-driver >/dev/null 2>&1 )
   for c in $CHECKS; do echo $c; done | xargs -P ${VERIF_JOBS:-6} -L 1 bash -c 'one $0' | sort
 done
-git -C /tmp/mut/matrix checkout -q -- .
+git -C $WT checkout -q -- .
 /venv/bin/python -c "from harness import leanproof; leanproof.translate()" >/dev/null 2>&1
 echo "### done"
